@@ -20,7 +20,10 @@ def tex_file(fmt, w, h, rng):
 
 
 def check(run):
-    rng = random.Random(run.seed)
+    # Fault enumeration is deterministic: bases, the quick tier's sample of the fault space and the extra random damage are
+    # drawn from a fixed stream, not from VERIF_SEED - known findings name (base, field offset) pairs, and what a damaged
+    # field does depends on the bytes around it.  The tiers differ in how much of the space they run, not in which bases.
+    rng = random.Random(1818)
     # the block reader's inflate lifecycle (no live stream on return, also on failure) is model-checked in MC_SqPackData
     run.model_check("mc/MC_SqPackData.tla", "mc/MC_SqPackData.cfg", workers=12)
     bases = []
